@@ -1,7 +1,7 @@
 #!/usr/bin/env python3
 """Confirm a seeded breaking change and run the checks against it.
 
-usage: seed_eval.py C06_A [--no-suite]
+usage: [SEED_SRC=/tmp/seed_out2 SEED_WT_PREFIX=/tmp/seed2_ SEED_VERIF=<snapshot of /verif>] seed_eval.py C06_A [--no-suite]
 
 1. in the scratch worktree /tmp/seed_<ID>: demo passes on the clean checkout, fails with the patch, and the pinned
    suite's stable tests still pass with the patch (tools/baseline_check.py);
@@ -17,8 +17,8 @@ from pathlib import Path
 
 name = sys.argv[1]
 prop = name.split("_")[0]
-src = Path("/tmp/seed_out") / name
-wt = Path("/tmp") / f"seed_{prop}"
+src = Path(os.environ.get("SEED_SRC", "/tmp/seed_out")) / name
+wt = Path(os.environ.get("SEED_WT_PREFIX", "/tmp/seed_") + prop)
 out = Path("/verif/seeded") / name
 PY = "/venv/bin/python"
 
